@@ -7,12 +7,14 @@ SIMPLE = ('INTEGER', 'REAL', 'NUMBER', 'STRING', 'BINARY', 'BOOLEAN', 'LOGICAL')
 
 
 class Simple:
-    def __init__(self, name):
+    """width: REAL (6), STRING (10) [FIXED], BINARY (8) [FIXED] - does not change the Part 21 literal"""
+
+    def __init__(self, name, width=None, fixed=False):
         assert name in SIMPLE
-        self.name = name
+        self.name, self.width, self.fixed = name, width, fixed
 
     def express(self):
-        return self.name
+        return self.name + (' (%d)' % self.width if self.width is not None else '') + (' FIXED' if self.fixed else '')
 
     def key(self):
         return self.name.lower()
@@ -350,6 +352,11 @@ def support_decls():
         TypeDecl('ddint', Named('dint')),
         TypeDecl('lsti', Aggr('LIST', 0, None, Simple('INTEGER'))),
         TypeDecl('lstr', Aggr('LIST', 0, None, Simple('REAL'))),
+        TypeDecl('lste', Aggr('LIST', 0, None, Named('tgt'))),                   # a named aggregate of entity references
+        TypeDecl('dreal6', Simple('REAL', 6)),
+        TypeDecl('dstr8', Simple('STRING', 8)),
+        TypeDecl('dstr4f', Simple('STRING', 4, True)),
+        TypeDecl('dbin8', Simple('BINARY', 8)),
         TypeDecl('seldef', ('select', ['dint', 'dstr'])),
         TypeDecl('selent', ('select', ['tgt', 'tgt2'])),
         TypeDecl('selmix', ('select', ['color', 'dreal', 'tgt'])),
@@ -371,6 +378,8 @@ SUPPORT_REFS = {'tgt': [1, 2], 'tgt2': [3, 4], 'tgtsub': [5]}
 RENAMED = [
     TypeDecl('color2', Named('color')),        # renamed enumeration
     TypeDecl('seldef2', Named('seldef')),      # renamed select
+    TypeDecl('lsti2', Named('lsti')),          # renamed aggregate (of integers)
+    TypeDecl('lste2', Named('lste')),          # renamed aggregate of entity references
 ]
 
 
@@ -382,9 +391,10 @@ def kinds(thorough=False, renamed=True):
            ('dlog', N('dlog')), ('dnum', N('dnum')), ('dbin', N('dbin')), ('ddint', N('ddint')),
            ('ref', N('tgt')), ('ref2', N('tgt2')),
            ('seldef', N('seldef')), ('selent', N('selent')), ('selmix', N('selmix')), ('selnest', N('selnest')), ('selagg', N('selagg')), ('selnum', N('selnum')),
-           ('dlsti', N('lsti'))]
+           ('dlsti', N('lsti')), ('dlste', N('lste')), ('dreal6', N('dreal6')),
+           ('real6', S('REAL', 6)), ('list_real4', A('LIST', 1, None, S('REAL', 4)))]
     if renamed:
-        ks += [('enum2', N('color2')), ('seldef2', N('seldef2'))]
+        ks += [('enum2', N('color2')), ('seldef2', N('seldef2')), ('dlsti2', N('lsti2')), ('dlste2', N('lste2'))]
     bases = [('int', S('INTEGER')), ('real', S('REAL')), ('str', S('STRING')), ('bin', S('BINARY')), ('bool', S('BOOLEAN')),
              ('log', S('LOGICAL')), ('num', S('NUMBER')), ('enum', N('color')), ('ref', N('tgt')), ('seldef', N('seldef')), ('selent', N('selent')),
              ('dint', N('dint'))]
